@@ -9,7 +9,7 @@ namespace Scenic.RoadCache
 
 abbrev Bytes := List Nat
 
-inductive Err | unpickling | digestMismatch | other
+inductive Err | unpickling | digestMismatch | fileNotFound | valueError | other
   deriving DecidableEq, Repr
 
 /-- constants regenerated from roads.py -/
@@ -91,6 +91,58 @@ def cacheAfter {α : Type} (c : Cfg) (unpickle : Bytes → Option α) (pickle : 
   match fromFile c unpickle parse useCache cacheFile digest optDigest with
   | .parsed a => if writeCache then some (dumpPickle c pickle a digest optDigest) else cacheFile
   | _ => cacheFile
+
+
+/-! ### the front of `Network.fromFile`: which file is read for a given spelling of the path -/
+
+/-- extension of the path passed to `fromFile`: none, a map format (`.xodr`), the cache format
+(`.snet`), anything else -/
+inductive Ext | none | map | pickled | unknown
+  deriving DecidableEq, Repr
+
+structure PathCfg where
+  /-- the keys of the `handlers` dict in order ("in order of decreasing priority") -/
+  handlerOrder : List Ext
+  /-- exception for a path without extension when no file of a known format exists -/
+  notFoundErr : Err
+  /-- exception for an extension that is not a key of `handlers` -/
+  unknownErr : Err
+  deriving Repr
+
+def extExists (mapExists cacheExists : Bool) : Ext → Bool
+  | .map => mapExists
+  | .pickled => cacheExists
+  | _ => false
+
+/-- `if not ext: for ext in handlers: if path.with_suffix(ext).exists(): …` / `elif ext not in handlers` -/
+def resolveExt (pc : PathCfg) (ext : Ext) (mapExists cacheExists : Bool) : Res Ext :=
+  match ext with
+  | .none =>
+    match pc.handlerOrder.find? (extExists mapExists cacheExists) with
+    | some e => .ok e
+    | none => .err pc.notFoundErr
+  | e => if pc.handlerOrder.contains e then .ok e else .err pc.unknownErr
+
+/-- `Network.fromFile(path, useCache, …)` with the path handling in front: `mapFile` = digest of the
+map file if it exists, `cacheFile` = bytes of the `.snet` file if it exists.  A `.snet` path is
+loaded directly, without expected digests, and its exceptions propagate; opening a missing file
+raises `FileNotFoundError` (`openErr`). -/
+def fromFilePath {α : Type} (c : Cfg) (pc : PathCfg) (openErr : Err) (unpickle : Bytes → Option α)
+    (parse : α) (useCache : Bool) (ext : Ext) (mapFile : Option Bytes) (cacheFile : Option Bytes)
+    (optDigest : Bytes) : Source α :=
+  match resolveExt pc ext mapFile.isSome cacheFile.isSome with
+  | .err e => .raised e
+  | .ok .pickled =>
+    match cacheFile with
+    | none => .raised openErr
+    | some file =>
+      match fromPickle c unpickle file none none with
+      | .ok a => .cached a
+      | .err e => .raised e
+  | .ok _ =>
+    match mapFile with
+    | none => .raised openErr
+    | some digest => fromFile c unpickle parse useCache cacheFile digest optDigest
 
 /-! ### the options digest (`deterministicHash`) : the byte string fed to blake2b -/
 
